@@ -257,7 +257,9 @@ def _eval(case, parts=('clauses', 'njobs')):
     o = _oracle(case, genome, signal, loci)
     W = case['W']
     d = _tmpdir()
-    stats = {'returned': 0, 'usable': sum(o['L_lo'].values())}
+    stats = {'returned': 0, 'usable': sum(o['L_lo'].values()), 'usable_hi': sum(o['L_hi'].values())}
+    if signal is not None and o['n_valid'] == 0:
+        return out, stats          # no valid input locus: the robust minimum is undefined, nothing to assert
     try:
         fa, bw = _write(d, genome, signal)
         try:
@@ -490,9 +492,9 @@ def run(rep):
     n_random = 10000 if thorough else 400
     per_nj = 40 if thorough else 8
     # reserve time for the n_jobs part (each change of n_jobs restarts the loky pool: 3-5 s)
-    reserve = (per_nj * 0.3 + 6) * 3
+    reserve = min((per_nj * 0.3 + 6) * 3, 0.4 * rep.budget_s)
     pool = []
-    n_ret = 0
+    n_ret = n_edge = 0
     for k in range(n_random):
         if rep.left() < reserve:
             rep.note('time budget: %d of %d random cases evaluated' % (k, n_random))
@@ -501,9 +503,12 @@ def run(rep):
         case = _random_case(rng, profile, seed=rep.seed * 100003 + k)
         viol, stats = _one(rep, case, profile + ('+bigwig' if case['bigwig'] else ''), ('r', rep.seed, k))
         n_ret += stats['returned']
+        n_edge += stats['usable'] == 0 and stats['usable_hi'] > 0 and not viol
         if not any(f.startswith('raised') or f == 'gc-bin-index-out-of-range' for f, _ in viol) and len(case['genome']) > 1:
             pool.append(case)
     rep.note('%d background loci returned and checked in the random part' % n_ret)
+    rep.note('observation, not asserted: in %d cases every input locus with N fraction == max_n_perc (e.g. max_n_perc = 0) was dropped by '
+             'the strict `<` of the input filter while tiles are kept with `<=`; "usable" is read two-sidedly so this passes' % n_edge)
     for nj in (2, 3, 4):
         done = 0
         for case in pool[(nj - 2)::3]:
